@@ -186,7 +186,8 @@ def faces_family(draw, max_calls=3):
 
     def arr(ydim, xdim):
         dl = [{"Y": ydim, "X": xdim}.get(l, l) for l in order]
-        return {"dims": dl, "values": draw(gen.data_values([dims[d] for d in dl], elements=ints)), "name": None}
+        return {"dims": dl, "values": draw(gen.data_values([dims[d] for d in dl], elements=ints)), "name": None,
+                "attrs": {"units": "K", "long_name": "field on " + ydim + " " + xdim}}
 
     arrays = {"S": arr("YC", "XC"), "U": arr("YC", "XL"), "V": arr("YL", "XC")}
     grid = {"coords": {"X": {"center": "XC", "left": "XL"}, "Y": {"center": "YC", "left": "YL"}}, "periodic": False,
@@ -194,8 +195,13 @@ def faces_family(draw, max_calls=3):
             "face_connections": {"dim": "FACE", "table": table}}
     calls = []
     for _ in range(draw(st.integers(1, max_calls))):
-        kind = draw(st.sampled_from(["pad-scalar", "pad-vector", "op-scalar", "op-vector", "vec2d"]))
-        if kind == "vec2d":
+        kind = draw(st.sampled_from(["pad-scalar", "pad-vector", "op-scalar", "op-vector", "vec2d", "ufunc"]))
+        if kind == "ufunc":
+            # a user grid ufunc with a halo, applied to the caller's own array on the face-connected grid
+            a_ = draw(st.sampled_from(["X", "Y"]))
+            call = {"fn": "ufunc", "sig": {"in": [[["D0", "center"]]], "out": [[["D0", "center"]]]}, "das": ["S"], "axis": [[a_]],
+                    "bw": {"D0": [draw(st.integers(0, 1)), 1]}, "via": draw(st.sampled_from(["apply", "decorator"]))}
+        elif kind == "vec2d":
             call = {"fn": "vec2d", "op": draw(st.sampled_from(["interp", "diff"])), "comps": {"X": "U", "Y": "V"},
                     "order": draw(st.sampled_from([["X", "Y"], ["Y", "X"]])),
                     "boundary": draw(st.sampled_from([None, "fill", "extend", {"X": "extend", "Y": "fill"}]))}
